@@ -7,6 +7,7 @@ class Matter:
     number_density: Quantity = None # number density
     volume: Quantity = None         # volume
     mass: Quantity = None           # mass
+    _number_density_given: bool = False  # only the number density was set by the user
 
     def __init__(self, 
         number_density:Quantity=None, mass_density:Quantity=None, volume:Quantity=None
@@ -20,10 +21,11 @@ class Matter:
         self.number_density = number_density
         self.mass_density = mass_density
         self.volume = volume
+        self._number_density_given = bool(number_density) and not bool(mass_density)
 
     def _norm(self):
       # setup densities of the composite
-        if self.mass_density:
+        if self.mass_density and not self._number_density_given:
             self.mass_density.to(Units.MASS_DENSITY)
             self.number_density = (self.mass_density/self.composite_mass).to(Units.NUMBER_DENSITY)
         elif self.number_density: # !! number density of a composite, not sum of all its components
